@@ -58,6 +58,7 @@ def sort_schema():
                               {"name": "ks", "kind": "vec_struct", "type": "KS"}]),
                     T("Item", [{"name": "name", "kind": "string", "key": True}, {"name": "w", "kind": "scalar", "type": "short", "key": True}])]}
     S["root"] = "Room"
+    S["unions_last"] = True      # the union is declared after the tables that use it
     return S
 
 
@@ -118,8 +119,13 @@ def run(ctx):
     rc_c, out_c, err_c = run_parallel(h, lines, 16, timeout=1800)
     dumps = [parse_dump(o) for o in out_c]
     nstruct = ntab = 0
+    # a struct larger than FLATCC_STRUCT_MAX_SIZE (nested fixed arrays times a large force_align) is rejected by design: such a schema is not `accepted`
+    m = re.search(r"def structMaxSize : Nat := (\d+)", open(os.path.join(LEAN, "FlatccModel", "Generated", "Consts.lean")).read())
+    smax = int(m.group(1)) if m else 65535
+    too_big = {si for (si, name, size, al, offs, fnames) in expect if size > smax}
     for (si, name, size, al, offs, fnames) in expect:
         d = dumps[si]
+        if d is None and si in too_big and out_c[si].startswith("fail"): continue
         if d is None:
             fail.append("schema %d rejected or crashed by the compiler: %s\n%s" % (si, out_c[si][:200], schemagen.render(schemas[si]))); continue
         ns = schemas[si]["namespace"]
@@ -190,6 +196,10 @@ def run(ctx):
         for res in ex.map(compile_one, cand):
             compiled += 1
             if res: fail.append(res)
+    # `enum values and defaults` as the generated C has them (bit patterns read through the generated accessors of an empty table)
+    from props import c08
+    gd_stats, gd_fail = c08.generated_defaults_stage(ctx)
+    fail += ["%s\n%s" % f for f in gd_fail]
     if fail:
         violation(ctx, "spec_%d.json" % ctx.seed, {"kind": "property-fails-on-implementation-or-model-disagrees", "why": fail[0][:3000], "count": len(fail), "all": [f[:300] for f in fail[:10]]})
     ctx.cov.update({"evaluations": nstruct + ntab + compiled, "distinct_nontrivial": len(set(lines)),
@@ -197,7 +207,7 @@ def run(ctx):
                             "table/struct/string, namespaces, required/deprecated/key/sorted, explicit ids in shuffled text order): struct size/alignment/offsets and table field ids (incl. hidden union type ids) read "
                             "from the compiler's binary schema vs the Lean model; for %d of them every generated header set (reader, builder, verifier, JSON parser, "
                             "JSON printer) is compiled as C11 with static assertions on the model's sizeof/_Alignof/offsetof." % (nsch, compiled),
-                    "structs_compared": nstruct, "tables_compared": ntab, "header_sets_compiled": compiled,
+                    "structs_compared": nstruct, "tables_compared": ntab, "header_sets_compiled": compiled, **gd_stats,
                     "traces_validated_against_impl": nstruct + ntab, "correspondence_disagreements": len(fail), "spec_oracle_failures": len(fail)})
     ctx.samples = [{"struct": e[1], "size": e[2], "align": e[3], "offsets": e[4]} for e in expect[:3]] or ["<no structs>"]
     ctx.notes = ["header sets are generated as split files, split with -g, --outfile and --stdout -g (all four for the fixed schemas and every second sampled one); includes are not generated",
